@@ -259,6 +259,9 @@ pub struct AdtsBatch {
     pub first_len: u16,
     pub count: u16,
     pub fields: u8,
+    /// remaining header bits: private/original/home/copyright bits, buffer fullness, number_of_raw_data_blocks_in_frame
+    #[serde(default)]
+    pub misc: u16,
 }
 
 /// Independent structural validity: what the stored sample must be, if accepted.
@@ -311,11 +314,12 @@ pub fn eval_adts(b: &AdtsBatch) -> Outcome {
             f[1] = 0xf0 | (b.protection_absent as u8);
             let sfi = b.fields % 13;
             let chan = 1 + (b.fields >> 4) % 7;
-            f[2] = (((b.fields >> 2) & 3) << 6) | (sfi << 2) | (chan >> 2);
-            f[3] = ((chan & 3) << 6) | ((declared >> 11) as u8 & 3);
+            let m = b.misc;
+            f[2] = (((b.fields >> 2) & 3) << 6) | (sfi << 2) | (((m & 1) as u8) << 1) | (chan >> 2);
+            f[3] = ((chan & 3) << 6) | ((((m >> 1) & 0xf) as u8) << 2) | ((declared >> 11) as u8 & 3);
             f[4] = (declared >> 3) as u8;
-            f[5] = (((declared & 7) as u8) << 5) | 0x1f;
-            f[6] = 0xfc;
+            f[5] = (((declared & 7) as u8) << 5) | ((m >> 5) as u8 & 0x1f);
+            f[6] = (((m >> 10) as u8 & 0x3f) << 2) | ((m >> 14) as u8 & 3) ^ (m as u8 & 3) & 3;
             let body = filler(f.len().saturating_sub(7), (declared as u64) << 8 | k as u64, 0);
             for (i, x) in body.iter().enumerate() {
                 f[7 + i] = *x;
@@ -393,19 +397,32 @@ pub fn eval_adts(b: &AdtsBatch) -> Outcome {
 }
 
 fn run_adts(ctx: &Ctx) -> SubReport {
-    let fields: Vec<u8> = if ctx.tier == Tier::Quick { vec![0x13] } else { vec![0x13, 0x00, 0x6c, 0xf7] };
+    // (field byte, misc bits): the misc values cover all four raw-data-block counts and both extremes of the other bits
+    let fields: Vec<(u8, u16)> = if ctx.tier == Tier::Quick {
+        vec![(0x13, 0x0000), (0x13, 0x7fe1), (0x6c, 0xbffe), (0xf7, 0xffff)]
+    } else {
+        let mut v = Vec::new();
+        for (i, f) in [0x13u8, 0x00, 0x6c, 0xf7].into_iter().enumerate() {
+            for k in 0..4u16 {
+                v.push((f, (k << 14) | (0x1555u16.rotate_left(i as u32 * 3) & 0x3ffc) | ((i as u16 + k) & 3)));
+            }
+        }
+        v.push((0x13, 0));
+        v.push((0xf7, 0xffff));
+        v
+    };
     let mk = move |shard: usize, shards: usize| {
         let fields = fields.clone();
         let mut all = Vec::new();
         let mut idx = 0usize;
         for pa in [true, false] {
             for rel in [-1i8, 0, 3] {
-                for &fl in &fields {
+                for &(fl, misc) in &fields {
                     let mut start = 0u16;
                     while start < 8192 {
                         let count = 64u16.min(8192 - start);
                         if idx % shards == shard {
-                            all.push(AdtsBatch { protection_absent: pa, rel, first_len: start, count, fields: fl });
+                            all.push(AdtsBatch { protection_absent: pa, rel, first_len: start, count, fields: fl, misc });
                         }
                         idx += 1;
                         start += count;
